@@ -15,6 +15,8 @@ pub struct RwOpts {
     pub cancel: bool,
     pub cut: bool,
     pub defer: u64,
+    /// the connection is cut by the remote writer itself, immediately after one of its commits was confirmed
+    pub cut_commit: bool,
 }
 
 async fn reader(rw: RwLock<u32>, ep: u64, inst: u64, n: u64, mut rng: Rng, cancel: bool) {
@@ -39,7 +41,9 @@ async fn reader(rw: RwLock<u32>, ep: u64, inst: u64, n: u64, mut rng: Rng, cance
     }
 }
 
-async fn writer(rw: RwLock<u32>, ep: u64, inst: u64, n: u64, mut rng: Rng, cancel: bool) {
+static CUT_DONE: std::sync::atomic::AtomicBool = std::sync::atomic::AtomicBool::new(false);
+
+async fn writer(rw: RwLock<u32>, ep: u64, inst: u64, n: u64, mut rng: Rng, cancel: bool, cut_links: Vec<Link>) {
     for _ in 0..n {
         let op = NEXT_OP.fetch_add(1, Ordering::SeqCst);
         tr(json!({"ev": "rw_start", "op": op, "kind": "write", "ep": ep, "inst": inst}));
@@ -59,6 +63,16 @@ async fn writer(rw: RwLock<u32>, ep: u64, inst: u64, n: u64, mut rng: Rng, cance
                     tr(json!({"ev": "rw_commit_start", "op": op, "value": nv}));
                     let ok = g.commit().await.is_ok();
                     tr(json!({"ev": "rw_commit_done", "op": op, "ok": ok}));
+                    if ok && ep != 1 && !cut_links.is_empty() && !CUT_DONE.swap(true, Ordering::SeqCst) {
+                        // a confirmed commit is stored at the owner: losing the connection now must not lose it
+                        tr(json!({"ev": "fault", "kind": "cut", "after_commit": op}));
+                        for l in &cut_links {
+                            l.set(|st| {
+                                st.sink_err = true;
+                                st.stream_err = true;
+                            });
+                        }
+                    }
                 } else {
                     tr(json!({"ev": "rw_drop", "op": op}));
                     drop(g);
@@ -76,6 +90,7 @@ pub async fn scenario(seed: u64, opts: &RwOpts) {
     let (ca, cb) = (upper_cfg(&mut rng), upper_cfg(&mut rng));
     tr(json!({"ev": "reset", "seed": seed, "wl": "rwlock", "remote": opts.remote, "cut": opts.cut, "cfg": [ca.json(), cb.json()]}));
     install_spawn_policy(seed, opts.defer, 3);
+    CUT_DONE.store(false, Ordering::SeqCst);
     let owner = Owner::new(0u32);
     let mut handles: Vec<tokio::task::JoinHandle<()>> = Vec::new();
     let mut links: Vec<Link> = Vec::new();
@@ -102,7 +117,13 @@ pub async fn scenario(seed: u64, opts: &RwOpts) {
     let nw = rng.range(1, 2);
     for i in 0..nr + nw {
         let (inst_idx, (rw, ep)) = {
-            let k = rng.below(insts.len() as u64) as usize;
+            let mut k = rng.below(insts.len() as u64) as usize;
+            if opts.cut_commit && i >= nr {
+                // writers live on the remote endpoint in this variant
+                if let Some(j) = insts.iter().position(|(_, e)| *e == 2) {
+                    k = j;
+                }
+            }
             (k as u64, insts[k].clone())
         };
         let r = Rng::new(seed * 131 + i);
@@ -110,7 +131,8 @@ pub async fn scenario(seed: u64, opts: &RwOpts) {
         if i < nr {
             handles.push(spawn_d(ep, reader(rw, ep, inst_idx, n, r, opts.cancel)));
         } else {
-            handles.push(spawn_d(ep, writer(rw, ep, inst_idx, n, r, opts.cancel)));
+            let cl = if opts.cut_commit && ep != 1 { links.clone() } else { Vec::new() };
+            handles.push(spawn_d(ep, writer(rw, ep, inst_idx, n, r, opts.cancel, cl)));
         }
     }
     if opts.cut {
